@@ -320,3 +320,27 @@ func HarnessC19WithRetry() {
 	}
 	vrt.Assert(msg.Context().Err() == nil, "the message context is usable after the chain")
 }
+
+// HarnessC19PanicThrough: when the handler panics, the middlewares that do not recover let the panic
+// through, and the message context is still not left cancelled afterwards (the effect ends with the call).
+func HarnessC19PanicThrough() {
+	kind := vrt.Int("kind", 0, mwCount-1)
+	msg := message.NewMessage("m", nil)
+	base, cancelBase := context.WithCancel(context.Background())
+	defer cancelBase()
+	msg.SetContext(base)
+	h := func(m *message.Message) ([]*message.Message, error) { panic("handler panic") }
+	var rec any
+	var err error
+	func() {
+		defer func() { rec = recover() }()
+		_, err = c19Middleware(kind)(h)(msg)
+	}()
+	if kind == mwRecoverer {
+		vrt.Assert(rec == nil && err != nil, "Recoverer turns the panic into an error")
+	} else {
+		vrt.Assert(rec != nil, "other middlewares do not swallow a panic")
+	}
+	vrt.Assert(msg.Context().Err() == nil, "the message context is not left cancelled after a panicking call")
+	vrt.Observe("recovered", rec != nil)
+}
